@@ -154,7 +154,7 @@ Section Item.
         intros G. right. destruct (Hg G) as [[-> Hn]|(pre & lastl & -> & Hb)].
         * exists [], l. split; [reflexivity|]. destruct (str_eqb cont [10]) eqn:E10; [|lia]. apply (cont_nl_blank l prepend cont Hl Ec E10).
         * exists (l :: pre), lastl. split; [reflexivity|exact Hb].
-      + destruct (any_interrupt types BK_List (l :: r)); [discriminate|].
+      + destruct (item_interrupt types (l :: r)); [discriminate|].
         destruct (parse_marker l) as [[[[? ?] ?] ?]|]; [discriminate|].
         destruct nl as [|nl]; [|discriminate].
         destruct (IH prepend (l :: buf) (S tk) (if str_eqb l [10] then 1%nat else 0%nat) Hrest Hr ltac:(lia)) as (b & tk' & given & E & Hc & Hg).
